@@ -353,7 +353,58 @@ def run_C07(ctx):
     ctx['cov']['exhaustive_grid'] = 'stored type x boundary value pool x set kind x get kind x auto-convert off/on (direct, by-name, by-path, by-index)'
     api_correspondence(ctx, ['convert'], s, n, proj_convert, oracle_touched, 'C07 typed get/set')
 
+def c16_strings(ctx):
+    """The string half of C16, enumerated: every (old value, new value) pair of config_setting_set_string on string
+    settings in every kind of parent - including the setting's own current string passed back in -, the include
+    directory likewise, a member overridden under its own name string; strings handed out (values, names, include
+    directory) are held by the harness across unrelated activity and compared afterwards.  ASan/LSan observe the
+    copies and the frees; the model (value semantics) is the specification of every answer."""
+    vals = [b'x', b'', b'a' * 70, bytes(range(1, 256)), None]
+    def fn(impl, rng, stats):
+        def do(op):
+            k = 'c16s:' + op.split(' ')[0]; stats[k] = stats.get(k, 0) + 1
+            return impl.do(op)
+        for ov in (0, 1):
+            for dt in (0, 1):
+                do('init'); do('set_option 128 %d' % ov); do('set_destructor %d' % dt)
+                do('add / %s 5' % hexs(b's')); do('add / %s 8' % hexs(b'l')); do('add / %s 7' % hexs(b'a')); do('add / %s 1' % hexs(b'g'))
+                do('add /3 %s 5' % hexs(b't')); do('add /1 - 5'); do('add /1 - 5'); do('add /2 - 5'); do('add /2 - 5')
+                do('set_hook /0 7'); do('set_hook /1/0 8'); do('set_hook /3/0 9')
+                n_extra = 0
+                for p in ('/0', '/1/0', '/1/1', '/2/0', '/2/1', '/3/0'):
+                    for old in vals:
+                        for new in vals + ['self']:
+                            do('set_string %s %s' % (p, hexs(old)))
+                            do('hold 0 value %s' % p); do('hold 1 name %s' % p)
+                            # unrelated activity: the root's child vector grows past its chunks, another string changes
+                            do('add /3 %s 5' % hexs(b'x%d' % n_extra)); n_extra += 1
+                            do('set_string /3/%d %s' % (n_extra, hexs(b'other' * (n_extra % 9))))
+                            do('write')
+                            do('check_held 0'); do('check_held 1'); do('drop_held 0')
+                            if new == 'self':
+                                do('set_string_self %s' % p)
+                            else:
+                                do('set_string %s %s' % (p, hexs(new)))
+                            do('get string %s' % p); do('check_held 1')
+                    do('set_string_self /1'); do('set_string_self /')      # not strings: refused, nothing touched
+                do('dump')
+                # the include directory
+                dirs = [None, b'd', b'dir/' * 30]
+                for old in dirs:
+                    for new in dirs + ['self']:
+                        do('set_include_dir %s' % hexs(old)); do('hold 2 incdir /'); do('set_tab_width 3'); do('check_held 2'); do('drop_held 2')
+                        do('set_include_dir_self' if new == 'self' else 'set_include_dir %s' % hexs(new)); do('get_include_dir')
+                # a member added again under its own name string: overridden (new one last) or refused
+                for ty in (2, 5, 1, 8):
+                    do('hold 3 name /0'); do('hold 4 name /1')
+                    do('add_self /0 %d' % ty); do('check_held 4'); do('drop_held 3'); do('dump')
+                    do('add_self /3/0 %d' % ty); do('dump')
+                do('add_self / 2')
+                do('destroy')
+    correspondence(ctx, [fn], proj_full, None, 'C16 string copies and lifetimes', 'strings')
+
 def run_C16(ctx):
+    c16_strings(ctx)
     s, n = sizes(ctx, (6, 250), (300, 1000))
     api_correspondence(ctx, ['hooks'], s, n, proj_hooks, None, 'C16 destructor log')
 
@@ -570,10 +621,15 @@ def run_C15(ctx):
             if b'\x00' in text:
                 continue
             prec = r.choice([b'', b''])
+            # every outcome of a read: success, parse error, I/O error on the caller's stream / on the file,
+            # file that cannot be opened (each call is followed by a failing config_write_file too); the same
+            # case under the four locale set-ups
+            special = ('failstream', 'badfile', 'missing', 'failstream')[(i // 4) % 4] if i % 4 == 0 else None
+            tx = text if i % 8 != 1 else gen_text.mutate(r, text).replace(b'\x00', b'')
             for g in (0, 1):
                 for t in (0, 1):
-                    e = r.choice(['string', 'stream', 'file'])
-                    out = impl.do('loccase %d %d %s %s' % (g, t, e, hexs(text)))
+                    e = special or r.choice(['string', 'stream', 'file'])
+                    out = impl.do('loccase %d %d %s %s' % (g, t, e, hexs(tx)))
                     stats['c15:g%dt%d:%s' % (g, t, e)] = stats.get('c15:g%dt%d:%s' % (g, t, e), 0) + 1
     def oracle(ops, outs):
         base = {}
@@ -593,7 +649,7 @@ def run_C15(ctx):
                 return i, 'the harness set-up did not take effect (radix %s, expected %s)' % (f[6], want_radix)
             if f[0] == '1' and (f[2] != '1' or f[3] != '1'):
                 return i, 'written file was not read back to the same text under this locale'
-            key = w[4]
+            key = (w[3] if w[3] in ('failstream', 'badfile', 'missing') else 'read', w[4])
             if key in base and base[key] != (f[0], f[1]):
                 return i, 'result or written text differs between locale set-ups'
             base.setdefault(key, (f[0], f[1]))
@@ -696,17 +752,32 @@ REGISTRY = {
 }
 
 import props_c01
-REGISTRY['C01'] = dict(modules=['LibconfigModel.Properties.C01'], run=props_c01.run_C01, assumptions=COMMON_ASSUMPTIONS)
+REGISTRY['C01'] = dict(modules=['LibconfigModel.Properties.C01', 'LibconfigModel.Properties.C01Lex', 'LibconfigModel.Properties.C01Parse', 'LibconfigModel.Properties.C01RoundTrip'], run=props_c01.run_C01, assumptions=COMMON_ASSUMPTIONS)
 
 import props_c1011
-REGISTRY['C10'] = dict(modules=['LibconfigModel.Properties.C10'], run=props_c1011.run_C10, assumptions=COMMON_ASSUMPTIONS)
+def run_C10_all(ctx):
+    props_c1011.run_C10(ctx)
+    # seams inside a line: outside the property's quantifier (files are cut at line boundaries) and outside the
+    # hypotheses of C10_splice - the refutation C10_spliceStatement_false lives exactly here - but model and
+    # implementation must still agree on what happens: tokens never join across the end of an included file
+    def seams(impl, rng, stats):
+        cases = [(b'a = 1', b'@include "i"2;\n'), (b'x = tr', b'@include "i"ue;\n'), (b'y = 1; /', b'@include "i"/ z = 2;\nw = 3;\n'),
+                 (b's = "ab', b'@include "i"cd";\n'), (b'# comment', b'@include "i" a = 1;\nb = 2;\n'), (b'a = 1;', b'  @include "i" b = 2;\n'),
+                 (b'a = [1,', b'@include "i" 2];\n'), (b'', b'@include "i"a = 1;\n'), (b'a = 0x1', b'@include "i"F;\n'), (b'a = 1.', b'@include "i"5;\n')]
+        for inc, top in cases:
+            impl.do('init'); impl.do('mkfile %s %s' % (hexs(b'i'), hexs(inc))); impl.do('mkfile %s %s' % (hexs(b't'), hexs(top)))
+            impl.do('read_file ' + hexs(b't')); impl.do('err'); impl.do('dump')
+            stats['c10:seam'] = stats.get('c10:seam', 0) + 1
+    correspondence(ctx, [seams], proj_full, None, 'C10 include seams', 'seams')
+
+REGISTRY['C10'] = dict(modules=['LibconfigModel.Properties.C10', 'LibconfigModel.Properties.C10Splice'], run=run_C10_all, assumptions=COMMON_ASSUMPTIONS)
 REGISTRY['C11'] = dict(modules=['LibconfigModel.Properties.C11'], run=props_c1011.run_C11, assumptions=COMMON_ASSUMPTIONS)
 
 import props_c17
 REGISTRY['C17'] = dict(modules=['LibconfigModel.Properties.C17'], run=props_c17.run_C17, assumptions=COMMON_ASSUMPTIONS)
 
 import props_c03
-REGISTRY['C03'] = dict(modules=['LibconfigModel.Properties.C03'], run=props_c03.run_C03, assumptions=COMMON_ASSUMPTIONS + [
+REGISTRY['C03'] = dict(modules=['LibconfigModel.Properties.C03', 'LibconfigModel.Properties.C03Term'], run=props_c03.run_C03, assumptions=COMMON_ASSUMPTIONS + [
     'PARTIAL: memory safety of the C code (flex buffer pointer arithmetic, memmove/realloc, ctype on char) is observed by ASan/UBSan/LSan on the executed paths only — validation, not proof',
     'the containers are modelled as size/index state machines (Containers.lean); that the C functions perform exactly these updates is read off strbuf.c, strvec.c, libconfig.c by hand and exercised under ASan',
     'the generic flex/bison skeleton loops (Flex.lean, Parser.lean) are hand-written models of generated code, tied by the read correspondence; yy_get_next_buffer and the bison stack reallocation are outside the model',
